@@ -4,11 +4,19 @@
   from the CURRENT source (`Gen/KernelShape.lean`) are these.
 
   A model `Chunk` is ONE column's view of the reader's staging buffers: `inds = column_inds[col_idx, :]`,
-  `off = column_offsets[col_idx]`, `vals = column_vals` (flat, all columns).
+  `off = column_offsets[col_idx]`, `vals = column_vals` (flat, all columns), together with the column subscript itself
+  (`col = col_idx`) and the number of columns of the staging arrays (`ncols = column_inds.shape[0] =
+  len(column_offsets) - 1`).
 
   Model ↔ site map:
-  * all five kernels: `column_inds[c, r]`, `column_inds[c, r + 1]` = the two `getE c.inds` of `matchRow` / `cellsFrom` /
-    `fixedRows` / `boolCell` (second dimension only, see GAP 1); `column_vals[…]` scalar reads = `getE c.vals`
+  * all five kernels: the column subscript — `column_offsets[i_c]` / `column_offsets[col_idx]`, `column_inds[i_c]` and the
+    FIRST dimension of `column_inds[c, r]` — = `withCol` (`.oob "column_offsets[col_idx]"` when `ncols < col`, else
+    `.oob "column_inds[…]"` when `ncols ≤ col` and the kernel gets to subscript `column_inds`: always in the two
+    categorical kernels, which evaluate `len(column_inds[i_c])` before the row loop; when `written_row_count > 0` in the
+    others). `col_idx` is a parameter no kernel assigns, so the first such subscript fails exactly when any later one would:
+    the check is made once per call. In range under `Spec.Transforms.Encodes.col` (`col_idx < number of columns`: the
+    importer is called with an element of `index_map`, see there). `column_inds[c, r]`, `column_inds[c, r + 1]` (second
+    dimension) = the two `getE c.inds` of `matchRow` / `cellsFrom` / `fixedRows` / `boolCell`; `column_vals[…]` scalar reads = `getE c.vals`
     (`keyEq`, `copyBytes`, `skipLead`, `skipTrail`); `column_vals[a:b]` slices = `sliceE` (the model insists that the
     slice lies inside the buffer: stricter than numpy's clamping).
   * `categorical_transform` / `leaky_categorical_transform`: `cat_index[i]`, `cat_index[i + 1]`, `cat_values[index]` =
@@ -18,16 +26,14 @@
     `freetext_values[a:b] = …` = `sliceAssign` (destination range checked).
   * `numeric_bool_transform`: `val[0]` … `val[4]` under `actual_length == k` = `rowAccepts` over the regenerated literal
     table `Gen.boolLiterals` (`row.1 == val.length` is the length test); the `non_parsable` slice is only read into
-    the exception arguments (a slice never raises; not modelled). `elements[row_idx]`, `validity[row_idx]`: GAP 2.
+    the exception arguments (a slice never raises; not modelled). `elements[row_idx]`, `validity[row_idx]` = the capacity
+    checks `capE ≤ i` / `capV ≤ i` of `boolRows` (`capE = len(elements)`, `capV = len(validity)` are parameters of
+    `boolTransform`; the only caller, `NumericImporter.import_part`, allocates both with `written_row_count` elements —
+    `boolImport` passes `c.rows`), made before the validation mode is looked at, as in the kernel.
   * `fixed_string_transform`: `column_vals[c]` = `getE`, `memory[a]` = `setE` in `copyBytes`.
   * `transform_to_values`: `cellsFrom`.
 
-  GAPS (subscripts the model does not check; covered by the bounds-checked differential runs only):
-  1. the column subscript of `column_offsets[i_c]` / `column_offsets[col_idx]` and the FIRST dimension of
-     `column_inds[i_c, …]` / `column_inds[i_c]`: the model's `Chunk` is the already selected row. The importer's
-     column index is fixed when the importers are built (`field_index < number of columns`), outside the kernels.
-  2. `elements[row_idx]`, `validity[row_idx]` of `numeric_bool_transform`: the only caller allocates both with
-     `written_row_count` elements and the loop is `range(written_row_count)`; the model appends (`boolRows`).
+  No subscript of these five kernels is left unchecked by the model.
   `chunk.shape[0]` and `Union[str, StringIO]`-style entries are attribute / annotation subscripts, not array accesses.
 -/
 namespace Exetera.KernelSites
